@@ -43,8 +43,19 @@ def _run(sc, r, scratch, i):
         return [inconclusive("group failed/timed out")]
     report = res.out
     rep = reports.parse(report, sc["fmt"])
-    where = r.choice(["outside", "outside", "inside", "tmpfs", "tmpfs", "relative"])
-    if where == "outside":
+    where = r.choice(["outside", "outside", "inside", "tmpfs", "tmpfs", "relative", "bind-mount"])
+    if where == "bind-mount":
+        # DIR below another mount point of the same block device: fclones takes it for another mount and copies without
+        # trying to rename first
+        os.makedirs(os.path.join(d, "bm-src"))
+        os.makedirs(os.path.join(d, "bm"))
+        if scratch.mount_bind(os.path.join(d, "bm-src"), os.path.join(d, "bm")):
+            target = os.path.join(d, "bm", "moved")
+        else:
+            where = "outside"
+    if where == "bind-mount":
+        pass
+    elif where == "outside":
         target = os.path.join(d, "moved dir")
     elif where == "inside":
         target = os.path.join(troot, sc["spec"]["roots"][0], "moved-here")
